@@ -24,8 +24,8 @@ BOUNDS = {"quick": {"rules per block": "1..4 (Highest/Lowest 1..3)", "degrees": 
                     "thresholds": "symbolic real in [0,1]", "patterns": "unloaded rule at each position; disabled rules for General/Threshold; "
                                                                          "disabled non-qualifying rule for the counting methods"},
           "thorough": {"rules per block": "1..5 (Highest/Lowest 1..4)"}}
-OUTSIDE = ["blocks with more rules than the bound", "whether a disabled rule with a qualifying degree consumes one of the n slots (the statement "
-           "does not say; disabled rules are only used where both readings agree)", "rounding (Mode R)"]
+OUTSIDE = ["blocks with more rules than the bound", "Proportional in floating point (the division is exact-real only)", "whether a disabled rule with a qualifying degree consumes one of the n slots (the statement "
+           "does not say; disabled rules are only used where both readings agree)"]
 ASSUMPTIONS = ["degrees finite in [0,1]; thresholds finite", "each rule concludes a distinct term so contributions are attributable"]
 STUBS = ["abstract Term (public extension point) returning the symbolic degree of its rule",
          "scalar(<python number>) boxed as a 0-d symbolic array so that `sum_degrees += d` (Proportional) can be executed"]
@@ -67,13 +67,31 @@ def oracle(method, D, loaded, enabled, n=None, t=None, cmp=None):
 '''
 
 
-def z_oracle(method, D, loaded, enabled, n=None, t=None, cmp=None):
-    """declarative selection predicates over the z3 reals D[i]; -> (contributes[i] Bool, triggered[i] Bool, degree[i] Real)"""
+class _FP:
+    """z3 terms that compare like IEEE doubles (Mode F): the oracle below is written with python operators"""
+
+    def __init__(self, f):
+        self.f = f
+
+    def __gt__(self, o): return z3.fpGT(self.f, _fp(o))
+    def __ge__(self, o): return z3.fpGEQ(self.f, _fp(o))
+    def __lt__(self, o): return z3.fpLT(self.f, _fp(o))
+    def __le__(self, o): return z3.fpLEQ(self.f, _fp(o))
+    def __eq__(self, o): return z3.fpEQ(self.f, _fp(o))
+    __hash__ = None
+
+
+def _fp(o):
+    return o.f if isinstance(o, _FP) else core.fv(float(o))
+
+
+def z_oracle(method, D, loaded, enabled, n=None, t=None, cmp=None, zero=None):
+    """declarative selection predicates over the z3 reals (or _FP doubles) D[i]; -> (contributes[i] Bool, triggered[i] Bool, degree[i])"""
     N = len(D)
     idx = range(N)
     T, F = z3.BoolVal(True), z3.BoolVal(False)
     L = [T if loaded[i] else F for i in idx]
-    deg = [D[i] if loaded[i] else z3.RealVal(0) for i in idx]
+    deg = [D[i] if loaded[i] else (z3.RealVal(0) if zero is None else zero) for i in idx]
 
     def count(conds):
         return z3.Sum([z3.If(c, 1, 0) for c in conds]) if conds else z3.IntVal(0)
@@ -117,17 +135,22 @@ def make_method(fl, method, nsym, tsym, cmp):
     return fl.Threshold(cmp, tsym)
 
 
-def ob_method(method, N, loaded, enabled, cmp=None, rounds=1, zero_disabled=False, label=""):
+def ob_method(method, N, loaded, enabled, cmp=None, rounds=1, zero_disabled=False, label="", mode="R"):
+    """mode "F": degrees and thresholds are IEEE doubles (bit-exact comparisons and subtractions): an ordering key that is
+    only equivalent over the reals (e.g. 1 - d instead of -d) shows up here"""
     def run(ob):
         fl = install()
-        set_mode("R")
+        set_mode(mode)
         S.box_scalars = True
         D = [[rvar(f"d{r}_{i}") for i in range(N)] for r in range(rounds)]
         nsym = SymInt.var("n")
         t = rvar("t")
-        pre = [unit(x) for row in D for x in row] + [nsym.i >= 0, nsym.i <= N + 1, t.v >= 0, t.v <= 1]
+        if mode == "R":
+            pre = [unit(x) for row in D for x in row] + [nsym.i >= 0, nsym.i <= N + 1, t.v >= 0, t.v <= 1]
+        else:
+            pre = [unit(x) for row in D for x in row] + [nsym.i >= 0, nsym.i <= N + 1, unit(t)]
         if zero_disabled:
-            pre += [D[r][i].v == 0 for r in range(rounds) for i in range(N) if not enabled[i]]
+            pre += [(D[r][i].v == 0) if mode == "R" else z3.fpIsZero(D[r][i].f) for r in range(rounds) for i in range(N) if not enabled[i]]
         ins = {f"d{r}_{i}": D[r][i] for r in range(rounds) for i in range(N)}
         ins.update({"n": nsym, "t": t})
 
@@ -195,7 +218,12 @@ def ob_method(method, N, loaded, enabled, cmp=None, rounds=1, zero_disabled=Fals
                 ob.unexpected(pre, p, label, ins, rp)
                 continue
             for r in range(rounds):
-                con, trig, deg = z_oracle(method, [x.v for x in D[r]], loaded, enabled, n=nsym.i, t=t.v, cmp=cmp)
+                if mode == "R":
+                    con, trig, deg = z_oracle(method, [x.v for x in D[r]], loaded, enabled, n=nsym.i, t=t.v, cmp=cmp)
+                    is_deg = lambda x, d: z3.And(ZB(x.fin()), x.v == d)   # noqa: E731
+                else:
+                    con, trig, deg = z_oracle(method, [_FP(x.f) for x in D[r]], loaded, enabled, n=nsym.i, t=_FP(t.f), cmp=cmp, zero=_FP(core.fv(0.0)))
+                    is_deg = lambda x, d: z3.fpEQ(x.f, d.f)               # noqa: E731
                 res = p.result[r]
                 total = res[-1]
                 claims = []
@@ -204,16 +232,17 @@ def ob_method(method, N, loaded, enabled, cmp=None, rounds=1, zero_disabled=Fals
                     tre = elements(tr)
                     claims.append(ZB(core.tb(tre[0])) == trig[i] if len(tre) == 1 else z3.BoolVal(False))
                     adv = tf(ad)
-                    claims.append(z3.And(ZB(adv.fin()), adv.v == deg[i]))
+                    claims.append(is_deg(adv, deg[i]))
                     claims.append(con[i] == z3.BoolVal(len(acts) == 1))
                     if len(acts) > 1:
                         claims.append(z3.BoolVal(False))
                     for a in acts:
                         av = tf(a)
-                        claims.append(z3.And(ZB(av.fin()), av.v == deg[i]))
+                        claims.append(is_deg(av, deg[i]))
                 claims.append(z3.BoolVal(total == sum(len(res[i][2]) for i in range(N))))
                 ob.prove(pre, p, z3.And(*claims), f"{label}/round{r}", ins, rp)
-            ob.expect_sat(pre, p, tf(p.result[-1][0][1]).v == 2, f"{label}/twin")
+            last = tf(p.result[-1][0][1])
+            ob.expect_sat(pre, p, (last.v == 2) if mode == "R" else z3.fpEQ(last.f, core.fv(2.0)), f"{label}/twin")
 
     return run
 
@@ -330,4 +359,11 @@ def obligations(tier, seed):
                 obs.append((nm, ob_method(method, N, (True,) * N, (True,) * N, cmp, rounds=2, label=nm)))
             nm = f"{tag}/batch"
             obs.append((nm, ob_batch(method, cmp, label=nm)))
+            # the same selection over IEEE doubles (comparison-only methods): ordering keys, thresholds and ties bit-exactly
+            if method != "Proportional" and (method != "Threshold" or cmp in (">", ">=", "==")):
+                for N in ((2, 3) if tier == "quick" else (2, 3, 4)):
+                    if method in ("Highest", "Lowest") and N > 3:
+                        continue
+                    nm = f"{tag}/N{N}/all/F"
+                    obs.append((nm, ob_method(method, N, (True,) * N, (True,) * N, cmp, label=nm, mode="F")))
     return obs
